@@ -56,6 +56,18 @@ def _f(*a, **k):
     return 0
 
 
+def _local_twice():
+    # (built with make_dataclass so that the annotations are the types themselves, not text: this module postpones annotations)
+    Foo = dataclasses.make_dataclass("Foo", [("x", int, 0)])
+    Foo.__qualname__ = "_local_twice.<locals>.Foo"
+    Holder = dataclasses.make_dataclass("Holder", [("a", Foo | None, None), ("b", Foo | None, None)])
+    Holder.__qualname__ = "_local_twice.<locals>.Holder"
+    return Holder, Foo
+
+
+_LT_HOLDER, _LT_FOO = _local_twice()
+
+
 _OBJ = object()
 D = datetime.date(2020, 1, 2)
 PASS = "pass-through"
@@ -80,6 +92,8 @@ LEAVES = {
     "Literal": (typing.Literal[1, "a"], "a", "a", "a"), "tuple[int,...]": (tuple[int, ...], ["1", 2], (1, 2), [1, 2]),
     "tuple[()]": (tuple[()], [], (), []), "Optional[int]": (typing.Optional[int], "5", 5, 5), "int|str": (int | str, "a", "a", "a"),
     "TC": (TC, None, None, None),
+    # a class defined inside a function, used twice through a PEP 604 union (the second use is a deferred node named by text)
+    "LocalTwice": (_LT_HOLDER, {"a": {"x": "1"}, "b": {"x": "2"}}, _LT_HOLDER(_LT_FOO(1), _LT_FOO(2)), {"a": {"x": 1}, "b": {"x": 2}}),
 }
 
 
